@@ -2,7 +2,7 @@
 From Coq Require Import List NArith ZArith Bool.
 From GoPdf.Base Require Import Bytes Res.
 From GoPdf.Gen Require Import Gen_Consts Gen_C02.
-From GoPdf.C02 Require Import Obj Dec Syntax Writer Stored Reader Expect Inst WriterProofs LayoutProofs ReaderProofs MoreProofs ChainProofs ObjStmProofs MemberRead Alias AliasProofs Samples.
+From GoPdf.C02 Require Import Obj Dec Syntax Writer Stored Reader Expect Inst WriterProofs LayoutProofs ReaderProofs MoreProofs OpenProofs ChainProofs ObjStmProofs MemberRead FullProofs Alias AliasProofs Samples.
 Import ListNotations.
 Open Scope N_scope.
 
@@ -82,10 +82,10 @@ Definition write_read_full : Prop :=
   forall (fmt : obj -> bytes) (fmt_sd : dict -> lenrep -> bytes) (parse : bytes -> option (obj * bytes))
          (encS decS encB decB : N -> N -> bytes -> bytes)
          (fenc : bytes -> dict -> bytes -> bytes) (fdec : bytes -> dict -> bytes -> option bytes)
-         (deflate : bytes -> bytes) (c : cfg),
-    (forall o rest, parse (LF :: fmt o ++ LF :: rest) = Some (norm o, LF :: rest)) ->
-    (forall sd lr rest, exists d',
-        parse (LF :: fmt_sd sd lr ++ LF :: rest) = Some (ODict d', LF :: rest) /\
+         (deflate : bytes -> bytes) (c : cfg) (wfo : obj -> Prop),
+    (forall o rest, wfo o -> parse (LF :: fmt o ++ LF :: kw_endobj ++ rest) = Some (norm o, LF :: kw_endobj ++ rest)) ->
+    (forall sd lr rest, wfo (ODict sd) -> exists d',
+        parse (LF :: fmt_sd sd lr ++ LF :: kw_stream ++ rest) = Some (ODict d', LF :: kw_stream ++ rest) /\
         dict_get k_Length d' = Some (lenval lr) /\ ODict (dict_del k_Length d') = norm (ODict sd)) ->
     (forall n g s, decS n g (encS n g s) = s) ->
     (forall n g s, decB n g (encB n g s) = s) ->
@@ -93,6 +93,7 @@ Definition write_read_full : Prop :=
     (forall s p, fdec k_FlateDecode p (deflate s) = Some s) ->
     forall ops st,
       run fmt fmt_sd encS encB fenc deflate c ops = Ok st -> closed st = true ->
+      wr_wf encS c wfo st -> plain_wf wfo st -> members_bound st ->
       (* no dictionary handed to OpenStream had /Filter already: such data is encoded by the caller,
          and a reader decodes the caller's chain as well, so it does not return the bytes written *)
       (forall n g d fs data, In (n, g, VStream d fs data) (wr st) -> dict_get k_Filter d = None) ->
@@ -112,14 +113,15 @@ Theorem write_read_partial :
   forall (fmt : obj -> bytes) (fmt_sd : dict -> lenrep -> bytes) (parse : bytes -> option (obj * bytes))
          (encS decS encB decB : N -> N -> bytes -> bytes)
          (fenc : bytes -> dict -> bytes -> bytes) (fdec : bytes -> dict -> bytes -> option bytes)
-         (deflate : bytes -> bytes) (c : cfg),
-    (forall o rest, parse (LF :: fmt o ++ LF :: rest) = Some (norm o, LF :: rest)) ->
-    (forall sd lr rest, exists d',
-        parse (LF :: fmt_sd sd lr ++ LF :: rest) = Some (ODict d', LF :: rest) /\
+         (deflate : bytes -> bytes) (c : cfg) (wfo : obj -> Prop),
+    (forall o rest, wfo o -> parse (LF :: fmt o ++ LF :: kw_endobj ++ rest) = Some (norm o, LF :: kw_endobj ++ rest)) ->
+    (forall sd lr rest, wfo (ODict sd) -> exists d',
+        parse (LF :: fmt_sd sd lr ++ LF :: kw_stream ++ rest) = Some (ODict d', LF :: kw_stream ++ rest) /\
         dict_get k_Length d' = Some (lenval lr) /\ ODict (dict_del k_Length d') = norm (ODict sd)) ->
     (forall n g s, decS n g (encS n g s) = s) ->
     forall ops st,
       run fmt fmt_sd encS encB fenc deflate c ops = Ok st -> strm st = None ->
+      wr_wf encS c wfo st ->
       (forall n g f,
          match xlookup n (xref st) with
          | None | Some (EFree _) => True
@@ -131,11 +133,74 @@ Theorem write_read_partial :
          xlookup n (xref st) = Some (EUse off g) -> wlookup n (wr st) = Some (g, v) ->
          get parse decS decB fdec (encrypted c) 2 (rs_of c st) n g = Ok (rval_of encB fenc c n g v)).
 Proof.
-  intros fmt fmt_sd parse encS decS encB decB fenc fdec deflate c H1 H2 H3 ops st Hr Hs. split.
+  intros fmt fmt_sd parse encS decS encB decB fenc fdec deflate c wfo H1 H2 H3 ops st Hr Hs WF. split.
   - intros n g f. apply get_null_lemma.
-  - exact (get_written_lemma fmt fmt_sd parse encS decS encB decB fenc fdec deflate c H1 H2 H3 ops st Hr Hs).
+  - exact (get_written_lemma fmt fmt_sd parse encS decS encB decB fenc fdec deflate c wfo H1 H2 H3 ops st Hr Hs WF).
 Qed.
 Print Assumptions write_read_partial.
+
+(* write_read for files with a cross-reference TABLE (version below 1.5, or HumanReadable), Reader.open
+   included: the bytes open (header, last startxref, the 20-byte lines back into the map, the trailer),
+   the version round-trips, and Get over the re-read map answers every reference as the record says.
+   Premises: the file is shorter than 10^10 bytes and generations are at most 65535 (the widths of the
+   fixed fields), the trailer dictionary and the recorded values are well-formed. *)
+Theorem write_read_table_mode :
+  forall (fmt : obj -> bytes) (fmt_sd : dict -> lenrep -> bytes) (parse : bytes -> option (obj * bytes))
+         (encS decS encB decB : N -> N -> bytes -> bytes)
+         (fenc : bytes -> dict -> bytes -> bytes) (fdec : bytes -> dict -> bytes -> option bytes)
+         (deflate : bytes -> bytes) (c : cfg) (wfo : obj -> Prop),
+    (forall o rest, wfo o -> parse (LF :: fmt o ++ LF :: kw_endobj ++ rest) = Some (norm o, LF :: kw_endobj ++ rest)) ->
+    (forall sd lr rest, wfo (ODict sd) -> exists d',
+        parse (LF :: fmt_sd sd lr ++ LF :: kw_stream ++ rest) = Some (ODict d', LF :: kw_stream ++ rest) /\
+        dict_get k_Length d' = Some (lenval lr) /\ ODict (dict_del k_Length d') = norm (ODict sd)) ->
+    (forall tr rest, wfo (ODict tr) ->
+        parse (LF :: fmt (ODict tr) ++ LF :: kw_startxref ++ rest) = Some (norm (ODict tr), LF :: kw_startxref ++ rest)) ->
+    (forall n g s, decS n g (encS n g s) = s) ->
+    forall ops st,
+      run fmt fmt_sd encS encB fenc deflate c ops = Ok st -> closed st = true -> use_xrefstm c = false ->
+      N.of_nat (length (out st)) < 10000000000 ->
+      (forall n off g, xlookup n (xtab st) = Some (EUse off g) -> g <= 65535) ->
+      (forall root info size, wfo (ODict (trailer_dict c root info size))) ->
+      wr_wf encS c wfo st ->
+      exists rs, open parse decS fdec (encrypted c) (out st) = Ok rs /\ rversion rs = cv c /\
+        (forall n g f,
+           match xlookup n (xref st) with
+           | None | Some (EFree _) => True
+           | Some (EUse _ g') => g' <> g
+           | Some (EComp _ _) => g <> 0
+           end -> get parse decS decB fdec (encrypted c) (S f) rs n g = Ok RNull) /\
+        (forall n off g v,
+           xlookup n (xref st) = Some (EUse off g) -> wlookup n (wr st) = Some (g, v) ->
+           get parse decS decB fdec (encrypted c) 2 rs n g = Ok (rval_of encB fenc c n g v)).
+Proof. exact FullProofs.write_read_table_mode. Qed.
+Print Assumptions write_read_table_mode.
+
+(* with a cross-reference STREAM, Reader.open is proved as well: the stream object is read, its rows
+   decoded (W widths, PNG-Up through the filter hypothesis), and the map that comes back is the
+   serialised one (free generations truncated to the width of field 3, the stream's own number free) *)
+Theorem open_xref_stream_mode :
+  forall (fmt : obj -> bytes) (fmt_sd : dict -> lenrep -> bytes) (parse : bytes -> option (obj * bytes))
+         (encS decS encB : N -> N -> bytes -> bytes)
+         (fenc : bytes -> dict -> bytes -> bytes) (fdec : bytes -> dict -> bytes -> option bytes)
+         (deflate : bytes -> bytes) (c : cfg) (wfo : obj -> Prop),
+    (forall sd lr rest, wfo (ODict sd) -> exists d',
+        parse (LF :: fmt_sd sd lr ++ LF :: kw_stream ++ rest) = Some (ODict d', LF :: kw_stream ++ rest) /\
+        dict_get k_Length d' = Some (lenval lr) /\ ODict (dict_del k_Length d') = norm (ODict sd)) ->
+    (forall cols rows, (forall r, In r rows -> length r = N.to_nat cols) ->
+        fdec k_FlateDecode [(k_Columns, OInt (Z.of_N cols)); (k_Predictor, OInt 12)]
+             (deflate (png_up (repeat 0 (N.to_nat cols)) rows)) = Some (concat rows)) ->
+    forall ops st,
+      run fmt fmt_sd encS encB fenc deflate c ops = Ok st -> closed st = true -> use_xrefstm c = true ->
+      N.of_nat (length (out st)) < 10000000000 ->
+      (forall n off g, xlookup n (xtab st) = Some (EUse off g) -> g <= 65535) ->
+      (forall n s i, xlookup n (xtab st) = Some (EComp s i) -> i < 18446744073709551616) ->
+      (forall root info r, nextRef st = r + 1 ->
+         wfo (ODict (xs_dict deflate (xtab st) (nextRef st) (trailer_dict c root info r)))) ->
+      exists rs r, open parse decS fdec (encrypted c) (out st) = Ok rs /\ nextRef st = r + 1 /\
+        rfile rs = out st /\ rhdr rs = 0 /\ rversion rs = cv c /\ rplain rs = [r] /\
+        xref st = xtab st ++ [(r, EUse (xpos st) 0)] /\ xagree (rxref rs) (xtab st).
+Proof. exact open_xref_stream_agree. Qed.
+Print Assumptions open_xref_stream_mode.
 
 (* members of object streams: every compressed entry of the writer's map is answered by Get with the
    normalised object that WriteCompressed was given (the container is read through its own entry,
@@ -146,18 +211,19 @@ Theorem write_read_members :
   forall (fmt : obj -> bytes) (fmt_sd : dict -> lenrep -> bytes) (parse : bytes -> option (obj * bytes))
          (encS decS encB decB : N -> N -> bytes -> bytes)
          (fenc : bytes -> dict -> bytes -> bytes) (fdec : bytes -> dict -> bytes -> option bytes)
-         (deflate : bytes -> bytes) (c : cfg),
-    (forall o rest, parse (LF :: fmt o ++ LF :: rest) = Some (norm o, LF :: rest)) ->
-    (forall sd lr rest, exists d',
-        parse (LF :: fmt_sd sd lr ++ LF :: rest) = Some (ODict d', LF :: rest) /\
+         (deflate : bytes -> bytes) (c : cfg) (wfo : obj -> Prop),
+    (forall o rest, wfo o -> parse (LF :: fmt o ++ LF :: kw_endobj ++ rest) = Some (norm o, LF :: kw_endobj ++ rest)) ->
+    (forall sd lr rest, wfo (ODict sd) -> exists d',
+        parse (LF :: fmt_sd sd lr ++ LF :: kw_stream ++ rest) = Some (ODict d', LF :: kw_stream ++ rest) /\
         dict_get k_Length d' = Some (lenval lr) /\ ODict (dict_del k_Length d') = norm (ODict sd)) ->
-    (forall o rest, (rest = [] \/ exists t, rest = LF :: t) ->
-        exists r', parse (fmt o ++ rest) = Some (norm o, r')) ->
+    (forall o os, wfo o -> Forall wfo os ->
+        exists r', parse (fmt o ++ match os with [] => [] | _ => LF :: join (map fmt os) end) = Some (norm o, r')) ->
     (forall n g s, decS n g (encS n g s) = s) ->
     (forall n g s, decB n g (encB n g s) = s) ->
     (forall name p x, fdec name (norm_parms p) (fenc name p x) = Some x) ->
     forall f ops st,
       run fmt fmt_sd encS encB fenc deflate c ops = Ok st -> strm st = None -> members_bound st ->
+      wr_wf encS c wfo st -> plain_wf wfo st ->
       forall n s i, xlookup n (xref st) = Some (EComp s i) ->
         exists o, wlookup n (wr st) = Some (0, VObj o) /\
                   get parse decS decB fdec (encrypted c) (S (S (S f))) (rs_of c st) n 0 = Ok (RObj (norm o)).
@@ -192,14 +258,14 @@ Theorem same_value_two_numbers :
   forall (fmt : obj -> bytes) (fmt_sd : dict -> lenrep -> bytes) (parse : bytes -> option (obj * bytes))
          (encS decS encB decB : N -> N -> bytes -> bytes)
          (fenc : bytes -> dict -> bytes -> bytes) (fdec : bytes -> dict -> bytes -> option bytes)
-         (deflate : bytes -> bytes) (c : cfg),
-    (forall o rest, parse (LF :: fmt o ++ LF :: rest) = Some (norm o, LF :: rest)) ->
-    (forall sd lr rest, exists d',
-        parse (LF :: fmt_sd sd lr ++ LF :: rest) = Some (ODict d', LF :: rest) /\
+         (deflate : bytes -> bytes) (c : cfg) (wfo : obj -> Prop),
+    (forall o rest, wfo o -> parse (LF :: fmt o ++ LF :: kw_endobj ++ rest) = Some (norm o, LF :: kw_endobj ++ rest)) ->
+    (forall sd lr rest, wfo (ODict sd) -> exists d',
+        parse (LF :: fmt_sd sd lr ++ LF :: kw_stream ++ rest) = Some (ODict d', LF :: kw_stream ++ rest) /\
         dict_get k_Length d' = Some (lenval lr) /\ ODict (dict_del k_Length d') = norm (ODict sd)) ->
     (forall n g s, decS n g (encS n g s) = s) ->
     forall ops st o n1 off1 g1 n2 off2 g2,
-      run fmt fmt_sd encS encB fenc deflate c ops = Ok st -> strm st = None ->
+      run fmt fmt_sd encS encB fenc deflate c ops = Ok st -> strm st = None -> wr_wf encS c wfo st ->
       xlookup n1 (xref st) = Some (EUse off1 g1) -> wlookup n1 (wr st) = Some (g1, VObj o) ->
       xlookup n2 (xref st) = Some (EUse off2 g2) -> wlookup n2 (wr st) = Some (g2, VObj o) ->
       get parse decS decB fdec (encrypted c) 2 (rs_of c st) n1 g1 = Ok (RObj (norm o)) /\
